@@ -185,8 +185,11 @@ func runSchedule(sc Scenario, choices []int) result {
 	hdrLen := len(conn.WireString())
 	sched := vt.NewSched()
 	xmpp.VerifHook = func(point, id string) {
-		sched.Gate(point)
+		if !sched.Mine() {
+			return
+		}
 		lg.Add(vt.Ev{"ev": "hook", "p": sched.Who(), "point": point})
+		sched.Gate(point)
 	}
 	defer func() { xmpp.VerifHook = nil }()
 	conn.Gate = func(point string) { sched.Gate(point) }
